@@ -7,13 +7,14 @@
    The model is of the fix-carrying worktree (bd210aa exhaustion check, 40ef9de repeated
    placeholder, 7328005 zero-padded fluent output names, 62ec2b5 single-output generators).
    Every theorem holds for ALL callables F, opaque objects D and call behaviours
-   `call : F -> args -> kwargs -> raises | returns v (not iterable | yields ys then stops/raises)`,
+   `call : F -> args -> kwargs -> raises | returns v (not iterable | an object of kind generator /
+   generator-like / iterator / iterable / sequence that yields ys then stops/raises)`,
    all graphs, arities, argument orders and numbers of outputs. *)
 From Coq Require Import List String Bool Arith NArith Lia.
 From EKW Require Import Graph.GStore Graph.Export Util.StrOrd Low.Into Low.Runner
   Low.RunnerOrdProofs Low.RunnerProofs Low.IntoProofs Low.RunnerArgsProofs Low.IntoSourceProofs
-  Low.FluentBuild Low.FluentBuildProofs.
-From EKW Require Low.RunnerCheck.
+  Low.FluentBuild Low.FluentBuildProofs Low.RunnerKindProofs.
+From EKW Require Low.RunnerCheck Low.FluentBuildCheck.   (* the checkers the harness evaluates: built (and kept fresh) with this file *)
 Import ListNotations.
 Open Scope string_scope.
 Open Scope list_scope.
@@ -111,7 +112,7 @@ Qed.
 Theorem C10_fluent_yield_binding :
   forall F D (call : F -> list (pval D) -> list (string * pval D) -> cres D)
          n tid (t : @task F D) src publish m args kwargs v gn ys,
-    1 <= n -> (n = 1 -> gn = true) -> t_oschema t = schema_of (fluent_outputs n) ->
+    1 <= n -> (n = 1 -> gn = KGenerator) -> t_oschema t = schema_of (fluent_outputs n) ->
     bound_args t src m = Ok (args, kwargs) ->
     call (t_func t) args kwargs = CRet v (Iter gn ys None) ->
     List.length ys = n ->
@@ -177,9 +178,54 @@ Theorem C10_single_output_value :
   forall F D (call : F -> list (pval D) -> list (string * pval D) -> cres D)
          tid (t : @task F D) src publish m args kwargs k s v it,
     t_oschema t = [(k, s)] -> bound_args t src m = Ok (args, kwargs) ->
-    call (t_func t) args kwargs = CRet v it -> (forall ys fin, it <> Iter true ys fin) ->
+    call (t_func t) args kwargs = CRet v it -> (forall ys fin, it <> Iter KGenerator ys fin) ->
     run_task call tid t src publish m = ([((tid, k), v, in_publish (tid, k) publish)], Ok tt).
 Proof. exact run_task_single. Qed.
+
+(* (8') ... in particular an ITERATOR that is not a generator object (zip, map, enumerate, iter(...),
+   itertools.*, io.StringIO / BytesIO / an open file, csv.reader, an instance of a class with __next__,
+   an instance of collections.abc.Generator), an iterable container, a __getitem__ sequence: the object
+   is handed to Memory.handle untouched, whatever iterating it would have yielded (no element, one,
+   many, an exception) -- it is not consumed and not replaced by its first element. *)
+Theorem C10_single_output_iterator_is_the_value :
+  forall F D (call : F -> list (pval D) -> list (string * pval D) -> cres D)
+         tid (t : @task F D) src publish m args kwargs k s v kd ys fin,
+    t_oschema t = [(k, s)] -> bound_args t src m = Ok (args, kwargs) ->
+    call (t_func t) args kwargs = CRet v (Iter kd ys fin) -> kd <> KGenerator ->
+    run_task call tid t src publish m = ([((tid, k), v, in_publish (tid, k) publish)], Ok tt).
+Proof. exact run_task_single_kind. Qed.
+
+(* (8'') The test `is it a generator object` is the only one that gives this behaviour: run with
+   another test `streams` in its place (run_task_with; run_task = run_task_with is_generator) equals
+   run for all callables, tasks and memories iff streams answers as inspect.isgenerator on every
+   kind of object. *)
+Theorem C10_stream_test_unique :
+  forall F D (f0 : F) (streams : ikind -> bool),
+    (forall (call : F -> list (pval D) -> list (string * pval D) -> cres D) tid (t : @task F D) src publish m,
+        run_task_with call streams tid t src publish m = run_task call tid t src publish m) <->
+    (forall kd, streams kd = is_generator kd).
+Proof. exact stream_test_unique. Qed.
+
+(* ... and what goes wrong under a test that answers True for the kind of the returned object: the
+   object is consumed; with exactly one element that ELEMENT is stored in place of the object, with
+   none or several (or an iterator that raises) the task fails *)
+Theorem C10_other_stream_tests_break_single_values :
+  forall F D (call : F -> list (pval D) -> list (string * pval D) -> cres D) streams
+         tid (t : @task F D) src publish m args kwargs k s v kd ys fin,
+    t_oschema t = [(k, s)] -> bound_args t src m = Ok (args, kwargs) ->
+    call (t_func t) args kwargs = CRet v (Iter kd ys fin) -> streams kd = true ->
+    match ys, fin with
+    | [y], None => run_task_with call streams tid t src publish m = ([((tid, k), y, in_publish (tid, k) publish)], Ok tt)
+    | _, _ => exists e, snd (run_task_with call streams tid t src publish m) = Err e
+    end.
+Proof. exact run_task_with_single_streamed. Qed.
+
+(* with two or more declared outputs the test plays no role: any iterable is unpacked *)
+Theorem C10_stream_test_irrelevant_for_multi :
+  forall F D (call : F -> list (pval D) -> list (string * pval D) -> cres D) streams
+         tid (t : @task F D) src publish m,
+    multi F D t -> run_task_with call streams tid t src publish m = run_task call tid t src publish m.
+Proof. exact run_task_with_multi. Qed.
 
 (* (9) Fluent: what a node declares is what its author declared.  For ANY program of
    Payload(...), Node(payload or callable, inputs, num_outputs) and node.copy() calls -- one
@@ -261,8 +307,8 @@ Qed.
 Definition ex_s : ctask := mkT 0%N [] (schema_of (fluent_outputs 12)) [] [].
 
 Example C10_yield_binding_nonvacuous :
-  unpacked N obj ex_s (Iter true (yields_of 0 12) None) /\ bound_args ex_s [] [] = Ok ([], []) /\
-  c_call ex_behs 0%N [] [] = CRet (PObj (ORet 0)) (Iter true (yields_of 0 12) None) /\
+  unpacked N obj ex_s (Iter KGenerator (yields_of 0 12) None) /\ bound_args ex_s [] [] = Ok ([], []) /\
+  c_call ex_behs 0%N [] [] = CRet (PObj (ORet 0)) (Iter KGenerator (yields_of 0 12) None) /\
   List.length (yields_of 0 12) = List.length (t_oschema ex_s) /\
   nth_error (fst (run_task (c_call ex_behs) "s" ex_s [] [("s", "10")] [])) 10 = Some (("s", "10"), PObj (OYield 0 10), true).
 Proof. split; [left; unfold multi; vm_compute; lia|]. repeat split; vm_compute; reflexivity. Qed.
@@ -293,7 +339,7 @@ Example C10_fluent_yield_binding_one_coordinate :
 Proof. repeat split; vm_compute; reflexivity. Qed.
 
 Example C10_single_output_value_nonvacuous :
-  t_oschema ex_one = [("0", "Any")] /\ c_call [(0%N, BTuple 2)] 0%N [] [] = CRet (PObj (ORet 0)) (Iter false (yields_of 0 2) None).
+  t_oschema ex_one = [("0", "Any")] /\ c_call [(0%N, BTuple 2)] 0%N [] [] = CRet (PObj (ORet 0)) (Iter KIterable (yields_of 0 2) None).
 Proof. split; vm_compute; reflexivity. Qed.
 
 Example C10_fluent_yield_binding_nonvacuous :
@@ -303,7 +349,7 @@ Proof. repeat split; vm_compute; try reflexivity; lia. Qed.
 
 (* one value too few: the defect the unfixed runner let through *)
 Example C10_count_mismatch_fails_nonvacuous :
-  c_call [(0%N, BGen 11 None)] 0%N [] [] = CRet (PObj (ORet 0)) (Iter true (yields_of 0 11) None) /\
+  c_call [(0%N, BGen 11 None)] 0%N [] [] = CRet (PObj (ORet 0)) (Iter KGenerator (yields_of 0 11) None) /\
   List.length (yields_of 0 11) <> List.length (t_oschema ex_s) /\
   snd (run_task (c_call [(0%N, BGen 11 None)]) "s" ex_s [] [] []) = Err "ValueError".
 Proof. repeat split; vm_compute; try reflexivity; discriminate. Qed.
@@ -319,6 +365,55 @@ Example C10_last_output_consistent_nonvacuous :
   snd (run_task (c_call ex_behs) "s" ex_s [] [] []) = Ok tt /\
   is_last_output_of ("s", "11") [("s", ex_s)] = Ok true /\ is_last_output_of ("s", "09") [("s", ex_s)] = Ok false.
 Proof. repeat split; vm_compute; reflexivity. Qed.
+
+(* a single-output task whose callable returns an iterator over two tokens (a zip, a two-line file),
+   over one token (a one-line StringIO), over none, a generator-like object, a list, a str value,
+   None: the object / value itself is stored.  Under `every iterator streams` (isinstance(result,
+   Iterator)) the two-token iterator is a task failure and the one-token iterator is silently
+   replaced by its element; containers and values are untouched; under `every iterable streams`
+   those break too. *)
+Definition streams_iterators (k : ikind) : bool :=
+  match k with KGenerator | KGenLike | KIterator => true | _ => false end.
+Definition streams_iterables (k : ikind) : bool :=
+  match k with KSequence => false | _ => true end.
+
+Example C10_single_output_iterator_is_the_value_nonvacuous :
+  let run1 b := run_task (c_call [(0%N, b)]) "s" ex_one [] [] [] in
+  let stored := ([(("s", "0"), PObj (ORet 0), false)], Ok tt) in
+  run1 (BObj KIterator 2 None) = stored /\ run1 (BObj KIterator 1 None) = stored /\
+  run1 (BObj KIterator 0 None) = stored /\ run1 (BObj KIterator 1 (Some "OSError")) = stored /\
+  run1 (BObj KGenLike 1 None) = stored /\ run1 (BObj KIterable 1 None) = stored /\
+  run1 (BObj KSequence 1 None) = stored /\ run1 (BObjL KIterator [PStr "header"] None) = stored /\
+  run1 (BVal PNone None) = ([(("s", "0"), PNone, false)], Ok tt) /\
+  run1 (BVal (PStr "a") (Some [PStr "a"])) = ([(("s", "0"), PStr "a", false)], Ok tt) /\
+  run1 (BObj KGenerator 1 None) = ([(("s", "0"), PObj (OYield 0 0), false)], Ok tt).
+Proof. repeat split; vm_compute; reflexivity. Qed.
+
+Example C10_other_stream_tests_break_single_values_nonvacuous :
+  let runw s b := run_task_with (c_call [(0%N, b)]) s "s" ex_one [] [] [] in
+  snd (runw streams_iterators (BObj KIterator 2 None)) = Err "ValueError" /\
+  runw streams_iterators (BObjL KIterator [PStr "header"] None) = ([(("s", "0"), PStr "header", false)], Ok tt) /\
+  snd (runw streams_iterators (BObj KGenLike 0 None)) = Err "ValueError" /\
+  runw streams_iterators (BObj KIterable 1 None) = ([(("s", "0"), PObj (ORet 0), false)], Ok tt) /\
+  runw streams_iterables (BObj KIterable 1 None) = ([(("s", "0"), PObj (OYield 0 0), false)], Ok tt) /\
+  runw streams_iterables (BVal (PStr "a") (Some [PStr "a"])) = ([(("s", "0"), PStr "a", false)], Ok tt) /\
+  snd (runw streams_iterables (BVal (PStr "ab") (Some [PStr "a"; PStr "b"]))) = Err "ValueError" /\
+  runw (fun _ => false) (BObj KGenerator 1 None) = ([(("s", "0"), PObj (ORet 0), false)], Ok tt).
+Proof. repeat split; vm_compute; reflexivity. Qed.
+
+Example C10_stream_test_unique_nonvacuous :
+  streams_iterators KIterator <> is_generator KIterator /\ (forall kd, is_generator kd = is_generator kd) /\
+  run_task_with (c_call [(0%N, BObj KIterator 2 None)]) is_generator "s" ex_one [] [] [] =
+    run_task (c_call [(0%N, BObj KIterator 2 None)]) "s" ex_one [] [] [].
+Proof. split; [discriminate|split; reflexivity]. Qed.
+
+Example C10_stream_test_irrelevant_for_multi_nonvacuous :
+  multi N obj ex_s /\
+  run_task_with (c_call [(0%N, BObj KIterator 12 None)]) streams_iterators "s" ex_s [] [] [] =
+    run_task (c_call [(0%N, BObj KIterator 12 None)]) "s" ex_s [] [] [] /\
+  snd (run_task (c_call [(0%N, BObj KIterator 12 None)]) "s" ex_s [] [] []) = Ok tt /\
+  snd (run_task (c_call [(0%N, BObj KSequence 11 None)]) "s" ex_s [] [] []) = Err "ValueError".
+Proof. split; [unfold multi; vm_compute; lia|]. repeat split; vm_compute; reflexivity. Qed.
 
 (* one Payload object (args [7; "input1"]) used for a node with 3 inputs, then 1 input, then 2
    inputs, then the first node copied; a second Payload built with the same arguments *)
@@ -373,6 +468,10 @@ Print Assumptions C10_count_mismatch_fails.
 Print Assumptions C10_run_ok_iff_counts_agree.
 Print Assumptions C10_last_output_consistent.
 Print Assumptions C10_single_output_value.
+Print Assumptions C10_single_output_iterator_is_the_value.
+Print Assumptions C10_stream_test_unique.
+Print Assumptions C10_other_stream_tests_break_single_values.
+Print Assumptions C10_stream_test_irrelevant_for_multi.
 Print Assumptions C10_fluent_nodes_as_declared.
 Print Assumptions C10_fluent_build_frame.
 Print Assumptions C10_fluent_args_shape.
